@@ -197,17 +197,19 @@ type hWorld struct {
 	blocks    []*biscuit.Block
 	tokens    []*biscuit.Biscuit
 	// what each builder's caller supplied (S level), and which builder made which block
-	buSupplied []*SBlock
-	bbSupplied []*SBlock
-	bbParent   []int
-	blkFrom    []int // block index -> bbuilder index
-	blkBuilt   []int // bbuilder index -> number of Build calls
-	tokContent [][]SBlock
-	buBase     [][]string
-	tokForeign []bool // carries a block built for another token's symbol table: content unspecified
-	tokBase    [][]string
-	orc        *oracle
-	unm        *biscuit.Unmarshaler // shared by all the reload operations of the history
+	buSupplied  []*SBlock
+	bbSupplied  []*SBlock
+	bbParent    []int
+	blkFrom     []int    // block index -> bbuilder index
+	blkSupplied []SBlock // block index -> what its builder held at the time of Build
+	blkBuilt    []int    // bbuilder index -> number of Build calls
+	tokContent  [][]SBlock
+	buBase      [][]string
+	tokForeign  []bool // carries a block built for another token's symbol table: content unspecified
+	tokReuse    []bool // carries (or derives from a token carrying) a block of a block builder that was built more than once: the recorded finding
+	tokBase     [][]string
+	orc         *oracle
+	unm         *biscuit.Unmarshaler // shared by all the reload operations of the history
 }
 
 func newHWorld(rng *RNG, orc *oracle) *hWorld {
@@ -284,6 +286,7 @@ func (w *hWorld) exec(o hOp) (out string, panicked string) {
 		w.tokContent = append(w.tokContent, []SBlock{cloneSBlock(*w.buSupplied[o.I])})
 		w.tokBase = append(w.tokBase, w.buBase[o.I])
 		w.tokForeign = append(w.tokForeign, false)
+		w.tokReuse = append(w.tokReuse, false)
 		w.registerSig(tok)
 		return "HDone", ""
 	case "createblock":
@@ -314,6 +317,8 @@ func (w *hWorld) exec(o hOp) (out string, panicked string) {
 		w.blkBuilt[o.I]++
 		w.blocks = append(w.blocks, blk)
 		w.blkFrom = append(w.blkFrom, o.I)
+		// a block carries what its builder held when Build was called (not what is added later)
+		w.blkSupplied = append(w.blkSupplied, cloneSBlock(*w.bbSupplied[o.I]))
 		return "HDone", ""
 	case "append":
 		fr := &faultReader{data: o.Src, failErr: errInjected}
@@ -322,12 +327,13 @@ func (w *hWorld) exec(o hOp) (out string, panicked string) {
 			return failOf(err), ""
 		}
 		w.tokens = append(w.tokens, tok)
-		w.tokContent = append(w.tokContent, append(append([]SBlock{}, w.tokContent[o.I]...), cloneSBlock(*w.bbSupplied[w.blkFrom[o.J]])))
+		w.tokContent = append(w.tokContent, append(append([]SBlock{}, w.tokContent[o.I]...), cloneSBlock(w.blkSupplied[o.J])))
 		w.tokBase = append(w.tokBase, w.tokBase[o.I])
 		{
 			_, _, psyms := biscuit.VerifTokenBlocks(w.tokens[w.bbParent[w.blkFrom[o.J]]])
 			_, _, tsyms := biscuit.VerifTokenBlocks(w.tokens[o.I])
 			w.tokForeign = append(w.tokForeign, w.tokForeign[o.I] || strings.Join(psyms, "\x00") != strings.Join(tsyms, "\x00"))
+			w.tokReuse = append(w.tokReuse, w.tokReuse[o.I] || w.blkBuilt[w.blkFrom[o.J]] > 1)
 		}
 		w.registerSig(tok)
 		return "HDone", ""
@@ -340,6 +346,7 @@ func (w *hWorld) exec(o hOp) (out string, panicked string) {
 		w.tokContent = append(w.tokContent, w.tokContent[o.I])
 		w.tokBase = append(w.tokBase, w.tokBase[o.I])
 		w.tokForeign = append(w.tokForeign, w.tokForeign[o.I])
+		w.tokReuse = append(w.tokReuse, w.tokReuse[o.I])
 		w.registerSig(tok)
 		return "HDone", ""
 	case "reload":
@@ -360,6 +367,7 @@ func (w *hWorld) exec(o hOp) (out string, panicked string) {
 		w.tokContent = append(w.tokContent, w.tokContent[o.I])
 		w.tokBase = append(w.tokBase, w.tokBase[o.I])
 		w.tokForeign = append(w.tokForeign, w.tokForeign[o.I])
+		w.tokReuse = append(w.tokReuse, w.tokReuse[o.I])
 		return "HDone", ""
 	case "getblockid":
 		id, err := w.tokens[o.I].GetBlockID(biscuit.Fact{Predicate: o.Fact.toBiscuit()})
@@ -842,7 +850,7 @@ func versionGate(res *Result, tok []byte, base []string, r *RNG, hist string) {
 func runHistories(res *Result, rng *RNG, tier string, outDir string, prop string) {
 	n, nOps := 24, 35
 	if tier == "thorough" {
-		n, nOps = 200, 60
+		n, nOps = 480, 70
 	}
 	const shard = 8
 	orc := newOracle()
@@ -954,7 +962,9 @@ func genHistoryChecked(res *Result, rng *RNG, w *hWorld, nOps int, allowRebuild 
 			bs, _ := tok.Serialize()
 			got, _, vers, err := indepDecode(bs, w.tokBase[ti])
 			want := w.tokContent[ti]
-			built2 := false
+			// the token carries, or derives from a token that carries, a block of a block builder
+			// built more than once: its content is the recorded finding, whatever the last op was
+			built2 := w.tokReuse[ti]
 			if o.Kind == "append" && w.blkBuilt[w.blkFrom[o.J]] > 1 {
 				built2 = true
 			}
@@ -988,8 +998,10 @@ func genHistoryChecked(res *Result, rng *RNG, w *hWorld, nOps int, allowRebuild 
 				// the history's reload used the default table: the printed form legitimately differs
 				t2, err = (&biscuit.Unmarshaler{Symbols: &baseTbl}).Unmarshal(bs)
 			}
-			if w.tokForeign[ti] {
-				// carries a block built for another token's table: Append cannot tell, Unmarshal may refuse it
+			if w.tokForeign[ti] || w.tokReuse[ti] {
+				// carries a block built for another token's table (Append cannot tell, Unmarshal may
+				// refuse it), or a block of a block builder built twice (the recorded finding, reported
+				// above under its own key): what such a token reloads to is not specified
 			} else if err != nil {
 				res.Violate("reload:"+o.Kind, "a library-built token does not unmarshal: "+err.Error(), rep)
 			} else {
